@@ -6655,38 +6655,47 @@ impl RelationalEngine {
                 }
 
                 // Revert index changes (continue even if some fail)
+                // Only touch indexes that exist: writing entries for a missing index leaves
+                // ghost entries behind that a later create_*_index would keep.
                 for change in index_changes {
-                    if let Err(e) =
-                        self.index_remove(table, &change.column, &change.new_value, *row_id)
-                    {
-                        errors.push(format!(
-                            "Failed to remove index entry for {table}.{}: {e}",
-                            change.column
-                        ));
+                    if self.has_index(table, &change.column) {
+                        if let Err(e) =
+                            self.index_remove(table, &change.column, &change.new_value, *row_id)
+                        {
+                            errors.push(format!(
+                                "Failed to remove index entry for {table}.{}: {e}",
+                                change.column
+                            ));
+                        }
+                        if let Err(e) =
+                            self.index_add(table, &change.column, &change.old_value, *row_id)
+                        {
+                            errors.push(format!(
+                                "Failed to add index entry for {table}.{}: {e}",
+                                change.column
+                            ));
+                        }
                     }
-                    if let Err(e) =
-                        self.index_add(table, &change.column, &change.old_value, *row_id)
-                    {
-                        errors.push(format!(
-                            "Failed to add index entry for {table}.{}: {e}",
-                            change.column
-                        ));
-                    }
-                    if let Err(e) =
-                        self.btree_index_remove(table, &change.column, &change.new_value, *row_id)
-                    {
-                        errors.push(format!(
-                            "Failed to remove btree index for {table}.{}: {e}",
-                            change.column
-                        ));
-                    }
-                    if let Err(e) =
-                        self.btree_index_add(table, &change.column, &change.old_value, *row_id)
-                    {
-                        errors.push(format!(
-                            "Failed to add btree index for {table}.{}: {e}",
-                            change.column
-                        ));
+                    if self.has_btree_index(table, &change.column) {
+                        if let Err(e) = self.btree_index_remove(
+                            table,
+                            &change.column,
+                            &change.new_value,
+                            *row_id,
+                        ) {
+                            errors.push(format!(
+                                "Failed to remove btree index for {table}.{}: {e}",
+                                change.column
+                            ));
+                        }
+                        if let Err(e) =
+                            self.btree_index_add(table, &change.column, &change.old_value, *row_id)
+                        {
+                            errors.push(format!(
+                                "Failed to add btree index for {table}.{}: {e}",
+                                change.column
+                            ));
+                        }
                     }
                 }
             },
@@ -6709,13 +6718,18 @@ impl RelationalEngine {
 
                 // Restore index entries (continue even if some fail)
                 for (col, value) in index_entries {
-                    if let Err(e) = self.index_add(table, col, value, *row_id) {
-                        errors.push(format!("Failed to add index entry for {table}.{col}: {e}"));
+                    if self.has_index(table, col) {
+                        if let Err(e) = self.index_add(table, col, value, *row_id) {
+                            errors
+                                .push(format!("Failed to add index entry for {table}.{col}: {e}"));
+                        }
                     }
-                    if let Err(e) = self.btree_index_add(table, col, value, *row_id) {
-                        errors.push(format!(
-                            "Failed to add btree index entry for {table}.{col}: {e}"
-                        ));
+                    if self.has_btree_index(table, col) {
+                        if let Err(e) = self.btree_index_add(table, col, value, *row_id) {
+                            errors.push(format!(
+                                "Failed to add btree index entry for {table}.{col}: {e}"
+                            ));
+                        }
                     }
                 }
             },
